@@ -35,10 +35,13 @@ def tbs(app_lens=(0, 1, 2), groups=GROUPS, id_kinds=("name", "none")):
     return T.oneof(*alts)
 
 
-def cert_dict(**kw):
+SIGVAL = T.dict(_open=True, rSig=T.tuple(T.strs("x-only", "compressed-y-0", "compressed-y-1"), T.bytes_n(32)), sSig=T.bytes_n(32))
+
+
+def cert_dict(sig=None, **kw):
     return T.dict(_open=True, type=(T.strs("explicit", "implicit"), "optional"),
                   issuer=T.oneof(T.tuple(T.const("self"), T.strs("sha256", "sha384")), T.tuple(T.const("sha256AndDigest"), T.bytes_n(8))),
-                  toBeSigned=tbs(**kw), signature=T.tuple(T.strs("ecdsaNistP256Signature", "ecdsaBrainpoolP256r1Signature"), T.opaque("object")))
+                  toBeSigned=tbs(**kw), signature=T.tuple(T.strs("ecdsaNistP256Signature", "ecdsaBrainpoolP256r1Signature"), sig or T.opaque("object")))
 
 
 def cert(issuer=None, **kw):
@@ -68,7 +71,7 @@ contract(f"{OWN}.check_enough_min_chain_length_for_issuer", shapes={"self": OWNC
 
 VSUBJ = cert(groups=[None, [1]], app_lens=(1,), issuer=T.oneof(T.none, cert(app_lens=(1,), groups=[["all"], [1]])))
 _ISSUED = "self.certificate['issuer'][0] == 'sha256AndDigest'"
-contract(f"{CERT}.verify", shapes={"self": VSUBJ, "backend": T.opaque("ecdsa_backend")}, may_raise=["Exception"],
+contract(f"{CERT}.verify", shapes={"self": VSUBJ, "backend": T.opaque("ecdsa_backend")}, may_raise=["Exception"], inline=[f"{CERT}.as_hashedid8"],
          ensures={
              "accepted_only_after_one_signature_check_that_passed": "implies(result, n_sig_checks() == 1 and sig_check()[3])",
              "signature_checked_over_this_certificates_to_be_signed_part": "implies(result, len(ghost('tbs_cert_encoded')) == 1 and tbs_cert_encoding()[0] is self.certificate['toBeSigned'] and sig_check()[0] == tbs_cert_encoding()[1] and sig_check()[1] == self.certificate['signature'])",
@@ -122,3 +125,9 @@ contract(f"{LIBQ}.verify_sequence_of_certificates",
                   "nothing_is_replaced_or_removed": f"implies(old(map_has({_AT}, map_key0({_AT}))), unchanged({_AT})) and implies(old(map_has({_AA}, map_key0({_AA}))), unchanged({_AA}))",
                   "roots_untouched": f"unchanged({_ROOT})", "stores_stay_keyed_by_digest": "store_wf(self)"},
          cover=["result is not None"], canary={"always_a_ticket": "result is not None"}, **L)
+
+# ------------------------------------------------------------------------------------------- identity of a certificate
+contract(f"{CERT}.as_hashedid8", shapes={"self": cert(groups=[None], app_lens=(1,), sig=SIGVAL)}, may_raise=["Exception"], returns=T.bytes_n(8),
+         ensures={"digest_is_over_the_encoding_of_this_very_certificate": "len(ghost('cert_encoded')) == 1 and ghost('cert_encoded')[0][0] is self.certificate and len(ghost('hashed')) == 1 and ghost('hashed')[0][0] == ghost('cert_encoded')[0][1]",
+                  "and_is_its_last_eight_bytes": "result == ghost('hashed')[0][1][-8:]"},
+         **{**S, "props": ["C09", "C03"]})
